@@ -292,6 +292,9 @@ def getBH_level2(
     mask_reset = [max_path_len != pl for pl in path_lengths]
     reset_obj = [obj for obj, mask in zip(obj_list, mask_reset) if mask]
     reset_obj_m0 = [pl for pl, mask in zip(path_lengths, mask_reset) if mask]
+    # keep the original paths: slicing a tiled Rotation back does not restore the
+    # stored quaternions bit by bit (they are normalized again)
+    reset_obj_paths = [(obj._position, obj._orientation) for obj in reset_obj]
 
     if max_path_len > 1:
         for obj, m0 in zip(reset_obj, reset_obj_m0):
@@ -423,9 +426,9 @@ def getBH_level2(
         _verif_point("aggregated", objects=obj_list)
     finally:
         # reset tiled objects
-        for obj, m0 in zip(reset_obj, reset_obj_m0):
-            obj._position = obj._position[:m0]
-            obj._orientation = obj._orientation[:m0]
+        for obj, (pos0, ori0) in zip(reset_obj, reset_obj_paths):
+            obj._position = pos0
+            obj._orientation = ori0
 
     _verif_point("untiled", objects=obj_list)
     # sumup over sources
